@@ -23,7 +23,8 @@ ScOf(j) == [single   |-> [n \in Node |-> ToSet(j.single[n])],
             fail     |-> [n \in Node |-> j.fail[n]],
             procs    |-> [p \in 1..Len(j.procs) |-> j.procs[p]],
             mode     |-> [n \in Node |-> j.mode[n]],
-            rorder   |-> [i \in 1..Len(j.rorder) |-> j.rorder[i]]]
+            rorder   |-> [i \in 1..Len(j.rorder) |-> j.rorder[i]],
+            ilook    |-> [n \in Node |-> j.ilook[n]]]
 
 TraceScenarios == {ScOf(Trace[1].sc)}
 
@@ -47,7 +48,7 @@ TopIs(n) == stack # <<>> /\ Top.n = n
 
 TGet == /\ IsEv("get")
         /\ LET r == Lookup(E.n) IN (E.res = r.v) /\ (E.err = r.err) /\ (E.ran = r.ran)
-        /\ \E kind \in {"S", "L", "top"} : Get(E.n, kind)
+        /\ \E kind \in {"S", "L", "top", "I"} : Get(E.n, kind)
 TCreateBegin == IsEv("createBegin") /\ TopIs(E.n) /\ CreateBegin
 TAddFactory  == IsEv("addFactory") /\ TopIs(E.n) /\ AddFactory
 TResolve == IsEv("resolve") /\ TopIs(E.n) /\ E.ok = (sc.fail[E.n] # "resolve") /\ Resolve
